@@ -599,7 +599,7 @@ func coordinator(d *Driver, tier string) int {
 	var lines []string
 	nUnlisted := 0
 	repDir := filepath.Join(Root(), "replays", d.ID)
-	var unreproduced, historySkipped []string
+	var unreproduced, historySkipped, notExamined []string
 	historyConfirmed, historyTried := 0, 0
 	for _, s := range sigs {
 		cands := vio[s]
@@ -611,6 +611,18 @@ func coordinator(d *Driver, tier string) int {
 		file := filepath.Join(repDir, sigFile(s))
 		var v Violation
 		confirmed := false
+		if nUnlisted >= 25 {
+			// the verdict is decided and 25 distinct unlisted signatures are already written out with replays;
+			// further ones are confirmed only if the findings file lists them (their KNOWN-FINDING line is due)
+			isListed := false
+			for _, f := range findings {
+				isListed = isListed || (f.Property == d.ID && f.Sig == s && f.Status == "known")
+			}
+			if !isListed {
+				notExamined = append(notExamined, s)
+				continue
+			}
+		}
 		for _, cand := range cands {
 			raw, _ := json.MarshalIndent(cand, "", " ")
 			os.WriteFile(file, raw, 0o644)
@@ -749,7 +761,8 @@ func coordinator(d *Driver, tier string) int {
 		"max_depth":                m.MaxDepth,
 		"violation_signatures":     m.VioCounts,
 		"unreproduced_signatures":  unreproduced,
-		"history_dependent_signatures_not_examined": historySkipped,
+		"history_dependent_signatures_not_examined":            historySkipped,
+		"signatures_beyond_the_first_25_unlisted_not_replayed": len(notExamined),
 		"workers": n,
 		"notes":   m.Notes,
 	}
